@@ -59,6 +59,7 @@ type modelState struct {
 	renderModel    map[string]interface{}
 	fpSeq          int
 	forkSeq        int
+	fnIDs          map[*ssa.Function]int64
 	pureMemo       map[*ssa.BasicBlock]bool
 	IfConverted    int
 	NoIfConv       bool
@@ -88,6 +89,12 @@ func (ex *Exec) modelZero(t types.Type) value {
 }
 
 func (ex *Exec) modelGlobal(g *ssa.Global) (value, bool) {
+	if g.Pkg != nil && g.Pkg.Pkg.Path() == "time" && strings.HasPrefix(g.Name(), "err") {
+		return ex.newErr("time." + g.Name()), true
+	}
+	if g.Pkg != nil && g.Pkg.Pkg.Path() == "strconv" && strings.HasPrefix(g.Name(), "Err") {
+		return ex.newErr("strconv." + g.Name()), true
+	}
 	switch g.String() {
 	case "time.UTC":
 		return locUTC, true
